@@ -34,7 +34,7 @@ CHECKS = {
  "C14": ("exploration", "§6 C14", "deterministic simulation: I/O-log monitor of the file discipline over sequential and reopen workloads",
          "Every tracked libc call on the store directory is checked: exclusive append-only creation, writes only through the creating descriptor at the end of file, no pwrite/writev/truncate/rename/link, ids strictly above everything the directory ever contained, size bound per file, real bytes == recorded bytes."),
  "C03": ("fault_enumeration", "§6 C03", "deterministic simulation with crash injection: every file-system-call boundary of every sampled workload is a kill point; images built from the recorded shadow and recovered with the real open",
-         "For each sampled workload (set/del/merge/reopen, small file limits so rollovers and multi-file merges are common) every state-changing I/O record is a crash point (quick tier: at most 80 per workload, always including first/last record of every operation; thorough: all). The directory image after that prefix of calls is materialised and opened with the real Config::open; every key must read the acknowledged value or the in-flight operation's value, never error/panic/older value; on shares of the images the recovered store must accept a set/get/del round, a second open must read the same, writes the recovered store acknowledges must survive its own clean close and reopen, and a merge on the recovered store (workload's thresholds) must change no read, neither at once nor after a clean close and reopen. A quarter of the workloads are concurrent (2-3 writer threads on disjoint keys plus a merging thread under a seeded schedule; crash points are positions in the global I/O log)."),
+         "For each sampled workload (set/del/merge/reopen, small file limits so rollovers and multi-file merges are common) every state-changing I/O record is a crash point (quick tier: at most 80 per workload, always including first/last record of every operation; thorough: all). The directory image after that prefix of calls is materialised and opened with the real Config::open; every key must read the acknowledged value or the in-flight operation's value, never error/panic/older value; on shares of the images the recovered store must accept a set/get/del round, a second open must read the same, writes the recovered store acknowledges must survive its own clean close and reopen (and, on half of those images, a second kill instead of the close), and a merge on the recovered store (workload's thresholds) must change no read, neither at once nor after a clean close and reopen. A quarter of the workloads are concurrent (2-3 writer threads on disjoint keys plus a merging thread under a seeded schedule; crash points are positions in the global I/O log)."),
  "C06": ("exploration", "§6 C06", "deterministic simulation of the full stack: real Server on the simulated runtime and TCP model, one scripted client with seeded segmentation and pipelining, sequential map model, independent RESP reply decoder",
          "1-40 well-formed SET/GET/DEL requests (values with CR, LF, NUL, empty, >8 KiB; UTF-8 keys incl. empty and multi-byte; DEL with repeated/absent keys) sent in pieces of 1 byte / random sizes / whole, pipelining windows 1..all, socket capacities 64 B - 64 KiB (partial writes, back-pressure), per-segment delay, read segmentation down to one byte, spurious Pending; a third of the clients now and then send only a prefix of a request, wait for every reply that is due, and then send the rest. Exactly one reply per request, in order, equal to the model; nothing more; final store scan equals the model; the server stops on the shutdown signal."),
  "C08": ("exploration", "§6 C08", "deterministic simulation: two real Connection ends over one simulated stream (or a raw harness writer that stalls / cuts inside a frame), seeded segmentation; independent encoder as reference",
